@@ -345,6 +345,24 @@ def gen_reopen(seed, idx):
         counts['sessions'] += 1
     if r.random() < 0.5:
         r.choice([wrong_type, mutated])()
+
+    def short_foreign():
+        # at the very end (nothing is restored): one file cut to L bytes AND one of the signature bytes still present changed;
+        # the open must be refused at that file, reading zeros beyond the end, without a write (Io_open_any.open_any_foreign_rejected)
+        ext = r.choice(['key', 'val', 'htx'])
+        L = r.choice([7, 8, 9, 12, 15, 16, 17, 20, 23, 24, 25, 40, 64, 100, 127, 128, 129, 200])
+        pos = r.randrange(min(L, 16))
+        if pos == 7:
+            pos = 6
+        orig = (SIG1[ext] + SIG2[kt])[pos]
+        v = r.choice([x for x in [(orig + 1) % 256, 0, 255, orig ^ 1, orig ^ 0x20, r.randrange(256)] if x != orig])
+        lines.extend(['truncfile db m.%s %d' % (ext, L), 'mutate db m.%s %d %d' % (ext, pos, v), 'snap db', 'db d0 db'])
+        expect[len(lines)] = 'panic'
+        call('map mx d0 %s m %s' % (kt, r.choice([params, other_params()])))
+        counts['short_foreign'] = counts.get('short_foreign', 0) + 1
+        close()
+    if r.random() < 0.6:
+        short_foreign()
     lines += ['iotrace off', 'snap db']
     return lines, {'n': n, 'kt': kt, 'params': params, 'keys': len(ks), 'expect': expect, 'counts': counts}
 
@@ -578,6 +596,7 @@ def scen_io(ctx, n_hist=None, n_big=None, n_casc=None, n_sparse=None, n_reopen=0
     d['reopens_with_other_parameters'] = sum(x['info']['counts']['reopens'] for x in ro)
     d['opens_as_wrong_key_type'] = sum(x['info']['counts']['wrong_type'] for x in ro)
     d['opens_with_mutated_header_byte'] = sum(x['info']['counts']['mutated'] for x in ro)
+    d['opens_of_short_files_with_a_foreign_signature'] = sum(x['info']['counts'].get('short_foreign', 0) for x in ro)
     d['opens_as_known_pair_u64_vu64'] = sum(x['info']['counts']['known_pair'] for x in ro)
     d['io_events_of_rejected_opens_compared'] = sum(x.get('rejected_open_events', 0) for x in ro)
     d['io_events_of_accepted_reopens_compared'] = sum(x.get('accepted_reopen_events', 0) for x in ro)
